@@ -74,6 +74,14 @@ FOCI24 = [
 ]
 if N >= 24:
     FOCI = FOCI24
+FOCI26 = [
+ "a size threshold crossed for the first time: a counter that wraps (uint16 / int32), a buffer that grows, shrinks or is re-sliced, a map or slice that is re-created or whose capacity is re-used, a frame that exceeds its pre-allocated size - the change is right until the structure crosses the threshold, and only wrong for what happens to be in flight at that moment",
+ "what a handler may legally do: a parser or statement function that uses the library in a legal but unusual way - keeps the DataWriter, the CopyReader, the parameters or the context after it returned; calls Complete or CopyIn twice or after rows; writes rows from another goroutine (sequentially); returns no statements or nil; panics; blocks; opens another connection to the same server from inside the handler; shares one prepared-statement object between connections",
+ "the second time: anything that is correct the first time and wrong the second - the second Query on a connection, the second Execute of a portal, the second COPY, the second Close, the second server in the same process (package-level state), the second listener, the same user reconnecting, a Parse of an identical text, the second error",
+ "negative space of the protocol: what must NOT be sent or done - no reply to Flush or to stray COPY messages, no ReadyForQuery after extended messages, no callback for skipped or refused messages, no response to a CancelRequest, no bytes after the connection is given up, no ParameterStatus twice - the change adds an emission, a callback or a side effect in one such corner",
+]
+if N >= 26:
+    FOCI = FOCI26
 props = [json.loads(l) for l in open('/verif/properties.jsonl')]
 earlier = {}
 for f in sorted(glob.glob('/verif/seeded/*/meta.json')):
